@@ -2,6 +2,7 @@ package cont
 
 import (
 	"errors"
+	"strings"
 
 	"github.com/junioryono/godi/v4"
 	"github.com/junioryono/godi/v4/internal/graph"
@@ -185,6 +186,8 @@ func checkBuild(w *kit.World, c godi.Collection) {
 		vrt.Assert(cls == "cycle", "C05.missed_cycle", "dependency relation has a cycle but Build reported", cls)
 	} else {
 		vrt.Assert(cls != "cycle", "C05.false_cycle", "Build reported a cycle on an acyclic relation")
+		// ... also not in words, through an untyped error
+		vrt.Assert(err == nil || !strings.Contains(err.Error(), "circular dependency"), "C05.false_cycle", "Build failed on an acyclic relation with an error that says circular dependency:", err)
 	}
 	if cls == "cycle" {
 		var ce *godi.CircularDependencyError
